@@ -82,6 +82,9 @@ def _run_one(args):
             r["contract"] = base
             if idx:
                 r["case"] = {k: repr(v) for k, v in c.fixed.items()}
+                tag = "case " + ",".join(f"{k}={v!r}" for k, v in sorted(c.fixed.items()))
+                for rec in r["records"]:
+                    rec["note"] = ((rec.get("note") or "") + " [" + tag + "]").strip()
             return r
         if kind == "lemma":
             l = [x for x in lemmas if x.name() == name][0]
@@ -148,7 +151,10 @@ def load_known_findings():
 def finding_matches(f, rec) -> bool:
     if f.get("status", "open") != "open":
         return False
-    if f["obligation"] != rec["oid"]:
+    if f.get("obligation_re"):
+        if not re.search(f["obligation_re"], rec["oid"]):
+            return False
+    elif f["obligation"] != rec["oid"]:
         return False
     hay = (rec.get("note") or "") + " || " + " ; ".join(rec.get("path") or ())
     pat = f.get("where")
@@ -309,7 +315,9 @@ def main(prop: str, tier: str = "quick") -> int:
         print(f"  refuted obligation: {rec['oid']}  [{rec.get('note','')}]  path={' ; '.join(rec.get('path') or ())[:300]}")
         exit_code = 1
     # residual: obligations with a known finding are not counted as required-to-hold
-    known_oids = {f["obligation"] for _, (f, _) in known_hit.items()}
+    known_oids = set()
+    for _, (f, recs) in known_hit.items():
+        known_oids.update(r["oid"] for r in recs)
 
     for r in unsupported:
         bs = r.get("bounded_standin") or {}
